@@ -72,7 +72,7 @@ class BindSpec(Spec):
     def model_line(self, case, sonic):
         if case[0] != "bind":
             return "\t".join(case)
-        return "\t".join(list(case[:5]) + [sonic.get("flt", "-")])
+        return "\t".join(list(case[:5]))
 
     def shrink_fields(self, case):
         return [3] if case[0] == "bind" and len(case) > 3 and case[3] != "-" else []
@@ -170,7 +170,7 @@ class C01(BindSpec):
                 sval = int64_as_float(sval)
             found = None
             if s_ok and exp_ok:
-                if mask_floats(sval) != mask_floats(exp_val):
+                if sval != exp_val:
                     found = ("value-differs", "%s cfg=%d sonic=%s %s=%s" % (env, cfg, sval[:300], auth, exp_val[:300]))
             elif s_ok and not exp_ok:
                 # documented leniency: values that are skipped (unknown fields, elements beyond a fixed array,
@@ -611,7 +611,74 @@ def m_optdec_null_text_unmarshaler(d, params):
     return p[0].get("val") == p[0].get("rval") and p[1].get("val") != p[1].get("rval")
 
 
+FLOAT_ATOM_RE = re.compile(r"\((f64|f32) ([0-9a-f]+)\)")
+
+
+def _value_pairs(d):
+    """the pairs of value dumps a value discrepancy is about: (sonic, reference) for C01, (jit, optdec) for C11"""
+    p = _pair(d)
+    if p:
+        return [(p[0].get("val", ""), p[1].get("val", ""))]
+    out = []
+    for e in _envs(d):
+        s = _side(d, e)
+        v = s.get("val", "")
+        if _cfg(d) & bit("UseInt64"):
+            v = int64_as_float(v)
+        other = s.get("rval", "")
+        if _cfg(d) & bit("CaseSensitive"):
+            m = d["model"].get(e) or {}
+            if m.get("model") == "ok" and m.get("val") != other:
+                other = m.get("val", "")       # the judge held sonic against the model on this case
+        out.append((v, other))
+    return out
+
+
+def _float_diffs(a, b):
+    """None when the dumps differ outside float atoms, else the list of differing (width, x, y)"""
+    if mask_floats(a) != mask_floats(b):
+        return None
+    fa, fb = FLOAT_ATOM_RE.findall(a), FLOAT_ATOM_RE.findall(b)
+    return [(x[0], int(x[1], 16), int(y[1], 16)) for x, y in zip(fa, fb) if x != y]
+
+
+def m_c19_neg_zero(d, params):
+    """C19-neg-zero-literal seen through Unmarshal: the literal `-0` gives +0.0 (encoding/json: -0.0); the
+    values differ in nothing but signs of float zeros and the document holds the literal `-0`"""
+    if not d["kind"].startswith("value-differs") or _model_flag(d, "negz") != "1":
+        return False
+    for a, b in _value_pairs(d):
+        df = _float_diffs(a, b)
+        if not df:
+            return False
+        for w, x, y in df:
+            sign = 1 << (63 if w == "f64" else 31)
+            if not ({x, y} == {0, sign}):
+                return False
+    return True
+
+
+def m_c19_f32_double_rounding(d, params):
+    """C19-f32-double-rounding seen through Unmarshal: float32 destinations are rounded twice; some literal of the
+    document is one on which that matters (driver flag f32dr), the values differ by one float32 ulp only, or
+    only one side reports the overflow"""
+    if _model_flag(d, "f32dr") != "1" or "f32" not in _typ(d):
+        return False
+    k = d["kind"].split(":")[0]
+    if k == "value-differs":
+        for a, b in _value_pairs(d):
+            df = _float_diffs(a, b)
+            if not df or any(w != "f32" or abs(x - y) != 1 for w, x, y in df):
+                return False
+        return True
+    if k in ("rejects-what-reference-accepts", "accepts-what-reference-rejects", "error-or-not-differs"):
+        return True
+    return False
+
+
 MATCHERS = {
+    "c19_neg_zero_literal": m_c19_neg_zero,
+    "c19_f32_double_rounding": m_c19_f32_double_rounding,
     "optdec_null_resets_text_unmarshaler": m_optdec_null_text_unmarshaler,
     "optdec_string_opt_number_content": m_optdec_string_opt_content,
     "optdec_null_in_slice": m_optdec_null_in_slice,
